@@ -54,7 +54,9 @@ fn main() {
                 seed: arg(&args, "--seed").and_then(|s| s.parse().ok()).unwrap_or(1),
                 nkeys: arg(&args, "--nkeys").and_then(|s| s.parse().ok()).unwrap_or(2),
                 power: args.iter().any(|x| x == "--power"),
-                manual_persist: args.iter().any(|x| x == "--manual-persist"),
+                manual_persist: args.iter().any(|x| x == "--manual-persist" || x == "--manual-persist-ks"),
+                manual_db: args.iter().any(|x| x == "--manual-persist" || x == "--manual-persist-db"),
+                tx_batches: args.iter().any(|x| x == "--tx-batches"),
                 split: !args.iter().any(|x| x == "--no-split"),
                 allowed_kf: arg(&args, "--kf")
                     .map(|s| s.split(',').filter(|x| !x.is_empty()).map(String::from).collect())
@@ -135,6 +137,8 @@ fn main() {
                 ops: arg(&args, "--ops").and_then(|s| s.parse().ok()).unwrap_or(200),
                 workers: arg(&args, "--workers").and_then(|s| s.parse().ok()).unwrap_or(2),
                 snapshots: !args.iter().any(|x| x == "--no-snapshots"),
+                single_writer: args.iter().any(|x| x == "--single-writer"),
+                scans: args.iter().any(|x| x == "--scans"),
             };
             std::fs::create_dir_all(&a.out_dir).ok();
             let out = if args.iter().any(|x| x == "--tx") { mt::run_mt_tx(&a) } else { mt::run_mt(&a) };
@@ -184,13 +188,26 @@ fn main() {
         "mt-flood" => {
             let out_dir = PathBuf::from(arg(&args, "--out").unwrap_or("/verif/work".into()));
             std::fs::create_dir_all(&out_dir).ok();
-            let out = mt::run_flood(
+            let f = if args.iter().any(|x| x == "--multi") { mt::run_flood_multi } else { mt::run_flood };
+            let out = f(
                 &out_dir,
                 arg(&args, "--seed").and_then(|s| s.parse().ok()).unwrap_or(1),
                 arg(&args, "--rounds").and_then(|s| s.parse().ok()).unwrap_or(6),
                 arg(&args, "--secs").and_then(|s| s.parse().ok()).unwrap_or(3),
             );
             println!("{}", serde_json::to_string(&json!({"result": out.to_json()})).unwrap());
+            std::process::exit(0);
+        }
+        "forced-stall" => {
+            let root = util::scratch_root();
+            let dir = util::fresh_dir(&root, "stall");
+            let workers = arg(&args, "--workers").and_then(|s| s.parse().ok()).unwrap_or(4);
+            let secs = arg(&args, "--secs").and_then(|s| s.parse().ok()).unwrap_or(10);
+            let r = match mt::forced_stall(&dir, workers, secs) {
+                Ok(v) => v,
+                Err(e) => json!({"error": e}),
+            };
+            println!("{}", serde_json::to_string(&json!({"result": r})).unwrap());
             std::process::exit(0);
         }
         "forced-torn" => {
